@@ -109,7 +109,7 @@ def run_cli(argv, stdin_text=None, stdin_bytes=None):
 # generators
 
 STRS = ['x', '', 'héllo wörld', 'line\nbreak', 'q"uote', "it's", '日本', 'a.b', ' sp ']
-KEYS = ['a', 'b', 'c', 'key', 'n1', 'ü', 'None', 'True', '1', '1.5', '0x10']
+KEYS = ['a', 'b', 'c', 'key', 'n1', 'ü', 'None', 'True', '1', '1.5', '0x10', 'back\\slash', 'q"uote', "ap'os", 'C:\\temp', 'dir\\new', 'end\\']
 
 
 def gen_value(rng, depth, toml=False):
@@ -356,7 +356,9 @@ def cli_case(col, rng, tmpdir, watch):
     if spec_fmt == 'json':
         flags += ['--spec-format', 'json']
     stdin_text = None
-    tpath, spath = os.path.join(tmpdir, 'target.txt'), os.path.join(tmpdir, 'spec.txt')
+    # (the name of a file says nothing about its format: --target-format does, json when it is not given)
+    tpath = os.path.join(tmpdir, 'target' + rng.choice(['.txt', '.json', '.yaml', '.yml', '.toml', '.py', '.dat', '', '.JSON', '.yaml.bak']))
+    spath = os.path.join(tmpdir, 'spec' + rng.choice(['.txt', '.json', '.py', '.glom', '']))
     if channel in ('target-file', 'both-files'):
         with open(tpath, 'w', encoding='utf-8') as f:
             f.write(target_text)
